@@ -130,12 +130,14 @@ def isFront (s : State) (id : Nat) : Bool :=
 
 /-- Second critical section of `Acquire` (the `case <-ctx.Done()` branch).
 `ready` already closed ⇔ the ticket is no longer in the queue: `err = nil`, nothing changes (`noop`).
-Otherwise the element is removed and, *only if it was the front and `size > cur`*, `notifyWaiters` runs. -/
+Otherwise the element is removed and, if it was the front and `size ≥ cur`, `notifyWaiters` runs
+(`size ≥ cur`, not `>`: with `size = cur` a waiter of weight 0 still fits; the code tested `>` before the repair
+616a0ec3, see `stepCancelStrictGt` in `SemaphoreLemmas.lean`). -/
 def stepCancel (s : State) (id : Nat) : State × Out :=
   if s.waiters.any (·.id == id) then
     let front := isFront s id
     let s' := { s with waiters := s.waiters.filter (fun w => !(w.id == id)) }
-    if front ∧ s'.size > s'.cur then afterNotify s' .err
+    if front ∧ s'.size ≥ s'.cur then afterNotify s' .err
     else (s', ⟨.err, []⟩)
   else if s.doomed.contains id then
     ({ s with doomed := s.doomed.filter (fun t => !(t == id)) }, ⟨.err, []⟩)
